@@ -334,6 +334,11 @@ func c04Decode(w *mon.W, idx int) {
 		w.Fail("Decode/wrote-outside-len-of-argument", mon.D{"bitmapSize": mask})
 		return
 	}
+	if overlapW(got, bm) {
+		w.Fail("Decode/result-is-a-view-of-the-argument", mon.D{"bitmapSize": mask, "len_bm": len(bm), "cap_bm": cap(bm), "len_result": len(got), "cap_result": cap(got),
+			"what": "the returned path list shares memory with the bitmap passed in (within their capacities): appending to the result writes into the bitmap"})
+		return
+	}
 	w.Eval(1)
 	exp := []uint64{}
 	for k, p := range list {
